@@ -28,20 +28,30 @@ var (
 	zzSwSec       int64 // last clock reading (seconds)
 	zzSwFirstSec  int64 // first clock reading of the step under test
 	zzSwHaveFirst bool
+	zzSwTickPending = true
 	zzSwRand                  [][]byte
 	zzSwErrAuth               = errors.New("zz: authentication failed")
 )
 
 func zzSwNow() time.Time {
-	// whole seconds only in this file (nanosecond readings are exercised in rrc.go); arbitrary, non-decreasing
-	s := zzsymI64("now_sec")
-	zzsymAssume(zzsymAnd(s >= zzSwSec, s < 1<<40))
-	zzSwSec = s
-	if !zzSwHaveFirst {
-		zzSwHaveFirst, zzSwFirstSec = true, s
+	// whole seconds only in this file (nanosecond readings are exercised in rrc.go); arbitrary, non-decreasing.
+	// Quick tier: the clock moves only when the harness calls zzSwTick (between the phases of a scenario);
+	// thorough tier: every single reading may be later than the previous one.
+	if zzsymParam("ALLDIMS") == 1 || zzSwTickPending {
+		s := zzsymI64("now_sec")
+		zzsymAssume(zzsymAnd(s >= zzSwSec, s < 1<<40))
+		zzSwSec = s
+		zzSwTickPending = false
 	}
-	return time.Unix(s, 0)
+	if !zzSwHaveFirst {
+		zzSwHaveFirst, zzSwFirstSec = true, zzSwSec
+	}
+	return time.Unix(zzSwSec, 0)
 }
+
+// zzSwTick lets an arbitrary amount of time pass before the next clock reading.
+func zzSwTick() { zzSwTickPending = true }
+
 func zzSwAfterFunc(d time.Duration, f func()) *time.Timer { return &time.Timer{} }
 func zzSwTimerStop(t *time.Timer) bool                     { return true }
 func zzSwTimerReset(t *time.Timer, d time.Duration) bool   { return true }
@@ -199,7 +209,11 @@ func zzSwStep(kinds []int, rrcNeg bool, epoch uint16, fromActive bool) {
 	//   0 prev+1 (newest)   1 prev+100 (newest, beyond the window)   2 prev (replay)
 	//   3 prev-1 (stale, in window)   4 prev-63 (stale, last in window)   5 prev-64 (too old)
 	//   6 number 0 after prev=5 (stale, in window)   7 empty window, any number
-	rel := zzsymChoice("seq_relation", 8)
+	rels := []int{0, 2, 3, 6, 7} // quick tier; the thorough tier enumerates all eight
+	if zzsymParam("ALLDIMS") == 1 {
+		rels = []int{0, 1, 2, 3, 4, 5, 6, 7}
+	}
+	rel := rels[zzsymChoice("seq_relation", len(rels))]
 	havePrev := rel != 7
 	var prev, seq uint64
 	switch rel {
@@ -231,11 +245,13 @@ func zzSwStep(kinds []int, rrcNeg bool, epoch uint16, fromActive bool) {
 		zzsymAssume(zzsymAnd(r > 0, r < 1<<16))
 		zzsymAssume(zzsymAnd(w >= 0, w < 1<<18))
 		active := func() net.Addr { return zzSwAddrA }
+		zzSwTick()
 		c.rrc.WrapReplayMarker(func() bool { return true }, zzSwAddrB, r, active, true)()
 		es = zzSwSec + 1 // expiry of an unchallenged path: last receive + 1 s
 		zzsymAssume(c.rrc.Reserve(zzSwAddrB, zzSwAddrA, w) == nil)
 		recv0, sent0 = uint64(r), uint64(w)
 		if zzsymChoice("pending", 2) == 1 {
+			zzSwTick()
 			ck, ok, err := c.rrc.Start(true, zzSwAddrB, zzSwAddrA)
 			zzsymAssume(ok && err == nil)
 			pend0, cookie0 = true, ck
@@ -256,6 +272,7 @@ func zzSwStep(kinds []int, rrcNeg bool, epoch uint16, fromActive bool) {
 	rec := zzSwRecord(wireCID, useCID, epoch, seqBytes, realType, content)
 
 	zzSwHaveFirst = false
+	zzSwTick()
 	_, _ = c.processIncomingPacket(context.Background(), rec, from, nil)
 
 	// ---- facts about the record, from the RFCs
@@ -340,7 +357,7 @@ func zzSwStep(kinds []int, rrcNeg bool, epoch uint16, fromActive bool) {
 // validated peer address A. One record arrives: its sequence number is newer than, equal to, just below, at the edge of or beyond
 // the 64-wide replay window around one arbitrary earlier accepted number (or the window is empty), plain or tls12_cid
 // layout with arbitrary CID bytes, authentication verdict arbitrary, clock arbitrary (non-decreasing whole
-// seconds). For the new address B the path manager is either empty or in the state its own API produces
+// seconds; quick tier: time passes between the phases, thorough tier: between any two readings). For the new address B the path manager is either empty or in the state its own API produces
 // after r bytes from B, w bytes granted to B and optionally a started challenge.
 
 // A return-routability record (msg_type and cookie arbitrary) arrives from the new address B in epoch 1, RRC
@@ -385,4 +402,199 @@ func zzAddrSwitchEpoch0() {
 //symgo:entry covers=address_kept,record_rejected
 func zzAddrRecordFromValidated() {
 	zzSwStep([]int{0, 1, 2, 3, 4, 5}, true, 1, true)
+}
+
+// ---------------------------------------------------------------- scripted migration scenario
+
+func zzSwSeqBytes(seq uint64) []byte {
+	return []byte{byte(seq >> 40), byte(seq >> 32), byte(seq >> 24), byte(seq >> 16), byte(seq >> 8), byte(seq)}
+}
+
+// zzSwChallengeTo returns the cookie of the single path_challenge written to addr since write index i0
+// (found = false if there is none) and the number of bytes written to addr since i0.
+func zzSwChallengeTo(pc *zzTxPC, i0 int, addr net.Addr, nRemote int) (cookie []byte, found bool, bytes int) {
+	for _, w := range pc.writes[i0:] {
+		s := zzSwParseSent(w, nRemote)
+		if s.to != addr {
+			continue
+		}
+		bytes += s.size
+		if s.isRRC && s.msgType == 0 {
+			zzsymAssert(!found, "at_most_one_challenge_per_record")
+			cookie, found = s.cookie, true
+		}
+	}
+	return
+}
+
+// Migration with spoofing, replay and racing paths, end to end through Conn.processIncomingPacket (DTLS 1.2
+// server, RRC negotiated, local CID NLCID bytes, validated address A):
+//  1. the newest authentic CID record (application data, arbitrary sequence number s) arrives from a new
+//     address B: exactly one path challenge goes to B, with fresh randomness, nothing else, address still A;
+//  2. optionally the next record (s+1) arrives from a third address C: C gets its own challenge;
+//  3. arbitrary time passes;
+//  4. a path response arrives: from A, B or C; echoing B's cookie, C's cookie or an arbitrary one; sequence
+//     number newer, equal to (replay) or older than what was seen; authentication verdict arbitrary.
+//     Proved: the address changes only to the address the response came from, only if that address was sent
+//     exactly this cookie, the record is authentic and not a replay, and less than one second passed since
+//     the challenge was sent; the honest case (B, B's cookie, in time) does switch;
+//  5. after a switch to B an attacker at C re-sends the very same response datagram (replay with rewritten
+//     source) or a fresh authentic response that echoes B's cookie: the address stays B.
+// Throughout, the bytes sent to an unvalidated address never exceed 3x the authentic bytes received from it.
+// Named assumption: the two random cookies differ.
+//
+//symgo:entry covers=mig_switched_b,mig_switched_c,mig_wrong_source,mig_wrong_cookie,mig_replayed,mig_forged,mig_late,mig_replay_after_switch_refused,mig_stolen_cookie_refused
+func zzMigrationScenario() {
+	nLocal, nRemote := zzsymParam("NLCID"), 1
+	c, pc, suite, localCID := zzSwConn(nLocal, nRemote, true)
+	suite.authOK = true
+	ctx := context.Background()
+	s1, _ := zzSwSeq48("s")
+	zzsymAssume(zzsymAnd(s1 >= 1, s1 <= recordlayer.MaxSequenceNumber-10))
+	var fromB, fromC, toB, toC int
+
+	// 1. newest authentic record from B
+	rec1 := zzSwRecord(localCID, true, 1, zzSwSeqBytes(s1), 23, zzsymBytes("app1", 3))
+	zzSwTick()
+	_, err := c.processIncomingPacket(ctx, rec1, zzSwAddrB, nil)
+	zzsymAssert(err == nil, "record_accepted")
+	<-c.decrypted
+	fromB += len(rec1)
+	chB, okB, n := zzSwChallengeTo(pc, 0, zzSwAddrB, nRemote)
+	toB += n
+	tB := zzSwSec
+	zzsymAssert(okB, "newest_cid_record_from_new_address_is_challenged")
+	zzsymAssert(len(zzSwRand) == 1 && zzsymEqBytes(zzSwRand[0], chB), "challenge_cookie_is_fresh_randomness")
+	zzsymAssert(len(pc.writes) == 1, "only_the_challenge_is_sent")
+	zzsymAssert(c.rAddr == zzSwAddrA, "address_unchanged_before_validation")
+	zzsymAssert(toB <= 3*fromB, "bytes_to_candidate_le_3x_bytes_from_candidate")
+
+	// 2. optionally a record from C
+	var chC []byte
+	var tC int64
+	raceC := zzsymChoice("third_address", 2) == 1
+	if raceC {
+		w0 := len(pc.writes)
+		rec2 := zzSwRecord(localCID, true, 1, zzSwSeqBytes(s1+1), 23, zzsymBytes("app2", 3))
+		zzSwTick()
+		_, err = c.processIncomingPacket(ctx, rec2, zzSwAddrC, nil)
+		zzsymAssert(err == nil, "record_accepted")
+		<-c.decrypted
+		fromC += len(rec2)
+		var okC bool
+		chC, okC, n = zzSwChallengeTo(pc, w0, zzSwAddrC, nRemote)
+		toC += n
+		tC = zzSwSec
+		zzsymAssert(okC, "newest_cid_record_from_new_address_is_challenged")
+		zzsymAssert(len(zzSwRand) == 2 && zzsymEqBytes(zzSwRand[1], chC), "challenge_cookie_is_fresh_randomness")
+		zzsymAssume(!zzsymEqBytes(chB, chC)) // named assumption: no 64-bit cookie collision
+		zzsymAssert(c.rAddr == zzSwAddrA, "address_unchanged_before_validation")
+		zzsymAssert(toC <= 3*fromC, "bytes_to_candidate_le_3x_bytes_from_candidate")
+	}
+
+	// 3./4. time passes, a path response arrives
+	src := []net.Addr{zzSwAddrA, zzSwAddrB, zzSwAddrC}[zzsymChoice("resp_from", 3)]
+	var cookie []byte
+	switch zzsymChoice("resp_cookie", 3) {
+	case 0:
+		cookie = chB
+	case 1:
+		if !raceC {
+			return
+		}
+		cookie = chC
+	default:
+		cookie = zzsymBytes("forged", 8)
+	}
+	seqRel := zzsymChoice("resp_seq", 3)
+	respSeq := s1 + 5
+	switch seqRel {
+	case 1:
+		respSeq = s1 // replay of an accepted number
+	case 2:
+		respSeq = s1 - 1 // older, still inside the window
+	}
+	suite.authOK = zzsymBool("resp_auth_ok")
+	resp := zzSwRecord(localCID, true, 1, zzSwSeqBytes(respSeq), 27, append([]byte{1}, cookie...))
+	w0 := len(pc.writes)
+	zzSwTick()
+	zzSwHaveFirst = false
+	_, _ = c.processIncomingPacket(ctx, resp, src, nil)
+	tResp := zzSwFirstSec // first clock reading taken while handling the response (if any)
+	if zzsymAnd(suite.authOK, seqRel != 1) {
+		switch src {
+		case zzSwAddrB:
+			fromB += len(resp)
+		case zzSwAddrC:
+			fromC += len(resp)
+		}
+	}
+	for _, w := range pc.writes[w0:] {
+		if c.rAddr != w.to {
+			if w.to == zzSwAddrB {
+				toB += len(w.data)
+			} else if w.to == zzSwAddrC {
+				toC += len(w.data)
+			}
+		}
+	}
+	if c.rAddr != zzSwAddrB {
+		zzsymAssert(toB <= 3*fromB, "bytes_to_candidate_le_3x_bytes_from_candidate")
+	}
+	if c.rAddr != zzSwAddrC {
+		zzsymAssert(toC <= 3*fromC, "bytes_to_candidate_le_3x_bytes_from_candidate")
+	}
+
+	sameB, sameC := zzsymEqBytes(cookie, chB), raceC && zzsymEqBytes(cookie, chC)
+	honestB := zzsymAnd(zzsymAnd(suite.authOK, seqRel != 1), zzsymAnd(src == zzSwAddrB, sameB))
+	switch c.rAddr {
+	case zzSwAddrA:
+		// not switched: say why (coverage of the refusals)
+		switch {
+		case !suite.authOK:
+			zzsymCover("mig_forged")
+		case seqRel == 1:
+			zzsymCover("mig_replayed")
+		case src == zzSwAddrB && sameB, src == zzSwAddrC && sameC:
+			zzsymAssert(zzSwHaveFirst, "honest_response_consults_the_clock")
+			if src == zzSwAddrB {
+				zzsymAssert(tResp >= tB+1, "honest_response_in_time_switches")
+			} else {
+				zzsymAssert(tResp >= tC+1, "honest_response_in_time_switches")
+			}
+			zzsymCover("mig_late")
+		case sameB || sameC:
+			zzsymCover("mig_wrong_source")
+		default:
+			zzsymCover("mig_wrong_cookie")
+		}
+		return
+	case zzSwAddrB:
+		zzsymAssert(honestB, "switch_only_for_authentic_fresh_response_from_challenged_address_with_its_cookie")
+		zzsymAssert(tResp < tB+1, "switch_only_within_one_second_of_challenge")
+		zzsymCover("mig_switched_b")
+	case zzSwAddrC:
+		zzsymAssert(zzsymAnd(zzsymAnd(suite.authOK, seqRel != 1), zzsymAnd(src == zzSwAddrC, sameC)),
+			"switch_only_for_authentic_fresh_response_from_challenged_address_with_its_cookie")
+		zzsymAssert(tResp < tC+1, "switch_only_within_one_second_of_challenge")
+		zzsymCover("mig_switched_c")
+		return
+	default:
+		zzsymFail("address_is_one_of_the_three")
+	}
+
+	// 5. the connection now talks to B; an attacker at C tries to take it over
+	suite.authOK = true
+	switch zzsymChoice("attack", 2) {
+	case 0: // same datagram again, source rewritten
+		_, _ = c.processIncomingPacket(ctx, resp, zzSwAddrC, nil)
+		zzsymAssert(c.rAddr == zzSwAddrB, "replayed_response_from_other_address_does_not_move_the_connection")
+		zzsymCover("mig_replay_after_switch_refused")
+	case 1: // a fresh authentic response that echoes the cookie that was issued to B
+		stolen := zzSwRecord(localCID, true, 1, zzSwSeqBytes(s1+6), 27, append([]byte{1}, chB...))
+		zzSwTick()
+		_, _ = c.processIncomingPacket(ctx, stolen, zzSwAddrC, nil)
+		zzsymAssert(c.rAddr == zzSwAddrB, "cookie_issued_to_one_address_does_not_validate_another")
+		zzsymCover("mig_stolen_cookie_refused")
+	}
 }
